@@ -132,9 +132,12 @@ def run(ctx: Ctx) -> None:
         snap = [(sorted((k, id(v) if k in ("params", "lr") else repr(v)) for k, v in e.items()),
                  [id(p) for p in e["params"]]) if isinstance(e, dict) else id(e) for e in entries_impl]
         fn = uo.lr_scale_func_adam if opt_kind == "adam" else uo.lr_scale_func_sgd("to_output_scale")
-        arg = (e for e in entries_impl) if supply == "generator" else entries_impl
+        # a group's "params" may itself be a one-shot iterator, as in {"params": module.parameters(), "lr": ...}
+        iter_groups = [isinstance(e, dict) and rng.random() < 0.3 for e in entries_impl]
+        passed = [({**e, "params": (q for q in e["params"])} if it else e) for e, it in zip(entries_impl, iter_groups)]
+        arg = (e for e in passed) if supply == "generator" else passed
         case = {"opt": opt_kind, "indep": indep, "allow": allow, "lr_mode": lr_mode, "supply": supply,
-                "wd": gwd, "lr": glr_v, "entries": entries_model}
+                "wd": gwd, "lr": glr_v, "entries": entries_model, "iterator_params": iter_groups}
         sig = {"opt": opt_kind, "indep": indep, "allow": allow, "lr_mode": lr_mode, "supply": supply,
                "shape": [[len(e["group"]["params"]), e["group"]["lr"] is not None, e["group"]["wd"] is not None,
                           len(e["group"]["extra"])] if "group" in e else 0 for e in entries_model],
